@@ -148,6 +148,7 @@ def std_probes(rng, objs, flights, quick, want_flips=False, want_trunc=False):
             if tr != home_tr:
                 add(i, tr, ph)
         if f.get("role") == "own":
+            add(i, home_tr, ph, repeat=2, replay=True)                      # the very same flight twice, same phantom
             n = {"min": 32, "prefix": 64, "obfs4": 64}[home_tr]
             add(i, home_tr, ph, {"kind": "trunc", "a": n - 1})
             add(i, home_tr, ph, {"kind": "flipbit", "a": rng.randrange(8 * n)})
@@ -550,6 +551,25 @@ def data_term(res, flname, base_hex):
     return hexs(data)
 
 
+PRIVATE = ("RegisteredDecoys.{decoysTimeouts, m, registerForDetector, updateInDetector}, DecoyTimeout.{decoy, identifier, "
+           "registrationTime}, DecoyRegistration.{transportParams, clientLibVer, registrationAddr}, "
+           "RegistrationManager.{registeredDecoys}, newRegistrationStats, prefix.Transport.SupportedPrefixes rows "
+           "{StaticMatch, Offset, MinLen, MaxLen, MinVer, DefaultDstPort} (by reflection)")
+
+
+def driver_problem(out):
+    """a readable reason when the in-package driver produced nothing"""
+    out = out or ""
+    if "[build failed]" in out or "undefined:" in out or "has no field or method" in out or "cannot use" in out:
+        errs = [l for l in out.splitlines() if ".go:" in l][:6]
+        return ("the in-package driver harness/inpkg/c02/wrap_driver_test.go no longer COMPILES against the tree under test "
+                "(no statement about conjure's behaviour; the driver reads internals of pkg/station/lib and the transports: %s - "
+                "a rename or signature change there needs the driver updated): %s" % (PRIVATE, " | ".join(errs)))
+    if "panic:" in out:
+        return "the driver process crashed: " + out[out.index("panic:"):][:600]
+    return "Go driver did not produce results: " + out[-800:]
+
+
 def run(ctx):
     ctx.assumptions += [
         "TagObfuscator.TryReveal (X25519 + Elligator + AES-CTR), the obfs4 mark (HMAC-SHA256) and the obfs4 library's "
@@ -568,11 +588,23 @@ def run(ctx):
     ctx.cov["rule"] = ("a case is one call of a real WrapConnection on a real registry; non-trivial = hash-distinct (history, transport, "
                        "phantom, stream class) that reached the registry lookup or a length/threshold decision; kinds are transport/outcome "
                        "and probe classes (cross-phantom, cross-transport, wrong-prefix, unvalidated, expired, truncated, bit-flipped)")
-    ctx.coq_props()
+    # composition theorems (PropsBridge.v) depend on the other builders' developments C08 (registry over real time)
+    # and C01/C14 (derivations); they are obligations of this check whenever those developments build
+    ctx.extra_dirs += ["C08", "C14", "C01"]
+    rc, out = ctx.coq_make(["C08/History.vo", "C01/Model.vo"])
+    if rc == 0:
+        ctx.coq_props(props_files=["C02/Props.v", "C02/PropsBridge.v"])
+        ctx.cov["composition"] = "PropsBridge.v checked against coq/C08 and coq/C01"
+    else:
+        ctx.extra_dirs[:] = []
+        ctx.coq_props()
+        ctx.cov["composition"] = "NOT checked in this run: coq/C08 or coq/C01 does not build: " + out[-300:]
+        ctx.assumptions.append("composition theorems (C02/PropsBridge.v) were not re-checked: a dependency outside C02 does not build")
     for fn in os.listdir(lib.GEN):
         if fn.startswith(("cases_C02_", ".cases_C02_")):
             os.remove(os.path.join(lib.GEN, fn))
-    rc, out = ctx.coq_make(["C02/Run.vo", "C02/Examples.vo", "C02/Refuted.vo"])
+    rc, out = ctx.coq_make(["C02/Run.vo", "C02/Examples.vo", "C02/Refuted.vo"] +
+                           (["C02/ExamplesBridge.vo"] if ctx.extra_dirs else []))
     if rc != 0:
         rc2, out2 = ctx.coq_make(["C02/Run.vo"])
         if rc2 != 0:
@@ -590,7 +622,7 @@ def run(ctx):
     rc, out, res = ctx.go_inpkg(".", "pkg/station/lib", {"zz_verif_driver_test.go": "c02/wrap_driver_test.go"},
                                 "^TestVerifC02Wrap$", [{"nkeys": 1, "phantoms": PHANTOMS[:1], "objects": [], "ops": [], "flights": [], "probes": []}])
     if not res or res[0].get("panic") or not res[0].get("table"):
-        ctx.broken("driver", "Go driver did not produce the prefix table: %s" % (out[-800:] if not res else res[0].get("panic")))
+        ctx.broken("driver", driver_problem(out) if not res else "Go driver did not produce the prefix table: %s" % res[0].get("panic"))
         return
     table = res[0]["table"]
     if res[0]["consts"] != EXPECT_CONSTS:
@@ -611,12 +643,13 @@ def run(ctx):
     rc, out, outs = ctx.go_inpkg(".", "pkg/station/lib", {"zz_verif_driver_test.go": "c02/wrap_driver_test.go"},
                                  "^TestVerifC02Wrap$", scs, timeout=1500)
     if not outs or len(outs) != len(scs):
-        ctx.broken("driver", "Go driver did not produce results: %s" % out[-1200:])
+        ctx.broken("driver", driver_problem(out))
         return
 
     lap("go")
     defs, terms, meta, vterms, vmeta = [], [], [], [], []
     syn_seen = {}
+    replay_seen = {}
     for si, (sc, o) in enumerate(zip(scs, outs)):
         if o.get("panic"):
             ctx.broken("driver", "scenario %d crashed: %s" % (si, o["panic"]), {"scenario": sc})
@@ -669,6 +702,8 @@ def run(ctx):
             oracle(ctx, S, r, sc)
             # classification of the probe for the generator self-test
             kinds = [r["transport"] + "/" + r["class"]]
+            if p.get("replay") and r["class"] == "found":
+                replay_seen[(si, r["probe"], r["transport"])] = replay_seen.get((si, r["probe"], r["transport"]), 0) + 1
             if sc.get("name") == "synthetic":
                 kinds = ["synthetic/" + r["class"]]
                 syn_seen.setdefault((si, r["probe"]), set()).add((r["class"], r["obj"], r["consumed"]))
@@ -721,6 +756,10 @@ def run(ctx):
             ctx.sample({"scenario": sc.get("name"), "ops": sc["ops"][:8], "probe": sc["probes"][r0["probe"]],
                         "stream": r0["data"][:160], "observed": {k: r0[k] for k in ("class", "obj", "consumed")}})
 
+    for (_, _, trn), cnt in replay_seen.items():
+        if cnt >= 2:       # informational: outside the property (see notes/C02.md, "Same-phantom replay")
+            kk = "boundary/same-phantom-replay-accepted-twice/" + trn
+            ctx.cov["histogram"][kk] = ctx.cov["histogram"].get(kk, 0) + 1
     ctx.cov["histogram"]["synthetic/order-dependent-outcome-observed"] = sum(1 for v in syn_seen.values() if len(v) > 1)
     ctx.require_kinds(["synthetic/found", "synthetic/tryagain", "synthetic/nottransport", "synthetic/incorrect_transport",
                        "synthetic/incorrect_prefix", "synthetic/order-dependent-outcome-observed"])
